@@ -11,8 +11,7 @@ cd "$WT"
 /venv/bin/python "$SRC/demo.py" >/dev/null 2>&1; D0=$?
 git apply "$PATCH" || { echo "patch does not apply"; cd /; git -C /repo worktree remove --force "$WT"; exit 2; }
 /venv/bin/python "$SRC/demo.py" >/dev/null 2>&1; D1=$?
-T=$(/venv/bin/python -m pytest -q -p no:cacheprovider -n 8 mpmath/tests 2>&1 | tail -1)
-case "$T" in *" failed"*) T="$T | serial rerun: $(/venv/bin/python -m pytest -q -p no:cacheprovider mpmath/tests 2>&1 | tail -1)";; esac
+T=$(timeout 1500 /venv/bin/python -m pytest -q -p no:cacheprovider --timeout=600 mpmath/tests 2>&1 | tail -1)
 cd "$HERE"
 RES=""
 for ID in "$@"; do
@@ -31,7 +30,7 @@ import json, sys
 src, dst, d0, d1, t, res = sys.argv[1:7]
 m = json.load(open(src))
 m["confirmed"] = {"demo_exit_without_patch": int(d0), "demo_exit_with_patch": int(d1), "existing_tests_with_patch": t,
-                  "ran": "tools/confirm_seed.sh (scratch worktree of /repo HEAD, pytest -n 8 + serial rerun on failure, demo, quick checks with VERIF_REPO=<worktree>)",
+                  "ran": "tools/confirm_seed.sh (scratch worktree of /repo HEAD, serial pytest, demo, quick checks with VERIF_REPO=<worktree>)",
                   "checks": res.strip()}
 json.dump(m, open(dst, "w"), indent=1)
 PY
